@@ -277,6 +277,7 @@ fn enter_child_poll(id: Cid, addr: usize, slot: usize, what: &str) -> bool {
         c.woke = false;
         c.slot = slot;
         c.polled_in_call = true;
+        x.polled_list.push(id);
         if moved {
             x.labels |= lb::MOVED;
         }
@@ -286,6 +287,10 @@ fn enter_child_poll(id: Cid, addr: usize, slot: usize, what: &str) -> bool {
 
 fn mark_done(x: &mut World, id: Cid) {
     x.children[id as usize].life = Life::Done;
+    x.unhold(id);
+    if x.children[id as usize].role == Role::Fut && x.children[id as usize].accepted {
+        x.parked += 1;
+    }
     x.done_this_call.push(id);
     x.completion_order.push(id);
     x.events_in_call += 1;
@@ -390,6 +395,7 @@ fn child_dropped(id: Cid, addr: usize) {
             );
         }
         if was_held {
+            x.unhold(id);
             if role == Role::Fut && x.adapter {
                 x.inflight -= 1;
             }
